@@ -1,6 +1,7 @@
 package ir
 
 import (
+	_ "embed"
 	"go/constant"
 	"go/token"
 	"go/types"
@@ -135,6 +136,10 @@ type Origins struct {
 	// PhiChoice, when set, replaces a control-flow join by the edge value it returns (non-nil): terms resolved
 	// along one path. Use on a private Origins and call ResetMemo between paths.
 	PhiChoice func(*ssa.Phi) ssa.Value
+	// ParamSubst, when set, replaces parameters by the given terms (virtual inlining of a helper at a call site,
+	// or a subject function that merely delegates to a new function).
+	ParamSubst map[*ssa.Parameter]*Term
+	inlining   map[*ssa.Function]bool
 }
 
 // ResetMemo forgets memoised terms (needed when PhiChoice changes).
@@ -245,6 +250,11 @@ func (o *Origins) args(vs []ssa.Value, depth int) []*Term {
 func (o *Origins) compute(v ssa.Value, depth int) *Term {
 	switch x := v.(type) {
 	case *ssa.Parameter:
+		if o.ParamSubst != nil {
+			if t, ok := o.ParamSubst[x]; ok && t != nil {
+				return t
+			}
+		}
 		return &Term{Op: "param", Name: x.Name()}
 	case *ssa.FreeVar:
 		return &Term{Op: "param", Name: "^" + x.Name()}
@@ -261,7 +271,11 @@ func (o *Origins) compute(v ssa.Value, depth int) *Term {
 	case *ssa.Builtin:
 		return &Term{Op: "param", Name: "builtin:" + x.Name()}
 	case *ssa.Extract:
-		return &Term{Op: "extract", Idx: x.Index, Args: []*Term{o.of(x.Tuple, depth+1)}}
+		tt := o.of(x.Tuple, depth+1)
+		if tt.Op == "call" && tt.Name == "tuple:" && x.Index < len(tt.Args) {
+			return tt.Args[x.Index] // result of a virtually inlined helper
+		}
+		return &Term{Op: "extract", Idx: x.Index, Args: []*Term{tt}}
 	case *ssa.Call:
 		return o.callTerm(x.Common(), depth)
 	case *ssa.Field:
@@ -505,6 +519,9 @@ func (o *Origins) callTerm(c *ssa.CallCommon, depth int) *Term {
 	if f := c.StaticCallee(); f != nil {
 		if fld := pbGetterField(f); fld != "" && len(c.Args) == 1 {
 			return &Term{Op: "field", Name: fld, Args: []*Term{o.of(c.Args[0], depth+1)}}
+		}
+		if t := o.inlineNew(f, c, depth); t != nil {
+			return t
 		}
 		return &Term{Op: "call", Name: FuncName(f), Args: spliceVariadic(c, o.args(c.Args, depth))}
 	}
@@ -931,6 +948,22 @@ func (o *Origins) dominatingFieldStore(ld *ssa.UnOp, a *ssa.FieldAddr) *ssa.Stor
 
 // InstrDominates reports whether instruction a is executed before b on every path to b.
 func InstrDominates(a, b ssa.Instruction) bool {
+	if a.Parent() != b.Parent() {
+		// one of them sits in a registered helper: compare at the level of the common subject function
+		for _, top := range []*ssa.Function{a.Parent(), b.Parent()} {
+			_ = top
+		}
+		if h, ok := helpers[a.Parent()]; ok && h.HF.MustPassOnSuccess(a.Block()) {
+			return InstrDominates(h.Outer, b)
+		}
+		if h, ok := helpers[b.Parent()]; ok {
+			if h.Outer == a {
+				return true
+			}
+			return InstrDominates(a, h.Outer)
+		}
+		return false
+	}
 	ba, bb := a.Block(), b.Block()
 	if ba == bb {
 		for _, ins := range ba.Instrs {
@@ -1211,4 +1244,111 @@ func captureRename(t *Term) *Term {
 		}
 	}
 	return &c
+}
+
+// FuncKey identifies a top-level function or method independently of short-name aliasing: full package path + name.
+func FuncKey(f *ssa.Function) string {
+	pk := ""
+	if f.Pkg != nil {
+		pk = f.Pkg.Pkg.Path()
+	}
+	if recv := f.Signature.Recv(); recv != nil {
+		t := recv.Type()
+		if p, ok := t.(*types.Pointer); ok {
+			t = p.Elem()
+		}
+		if n, ok := t.(*types.Named); ok {
+			return pk + "." + n.Obj().Name() + "." + f.Name()
+		}
+	}
+	return pk + "." + f.Name()
+}
+
+//go:embed inventory.txt
+var inventoryText string
+
+var inventory map[string]bool
+
+// ExtraNew lets the self-test declare fixture functions as "new".
+var ExtraNew func(*ssa.Function) bool
+
+// IsNewFunc: f is a top-level osmosis function that is not in the committed function inventory — it was introduced
+// by an edit made after the rule instances were written. Such helpers are transparent to the rules.
+func IsNewFunc(f *ssa.Function) bool {
+	if f == nil || f.Parent() != nil || f.Blocks == nil || f.Pkg == nil {
+		return false
+	}
+	if ExtraNew != nil && ExtraNew(f) {
+		return true
+	}
+	if !strings.HasPrefix(f.Pkg.Pkg.Path(), "github.com/osmosis-labs/osmosis") {
+		return false
+	}
+	if inventory == nil {
+		inventory = map[string]bool{}
+		for _, l := range strings.Split(inventoryText, "\n") {
+			if l = strings.TrimSpace(l); l != "" {
+				inventory[l] = true
+			}
+		}
+	}
+	return !inventory[FuncKey(f)]
+}
+
+// inlineNew: the value(s) returned by a call to a new helper, as origin terms of the helper's body with its
+// parameters replaced by the argument terms. Several return statements become a join. nil when not applicable.
+func (o *Origins) inlineNew(f *ssa.Function, c *ssa.CallCommon, depth int) *Term {
+	if !IsNewFunc(f) || depth > maxDepth-8 || o.inlining[f] || f == o.Fn {
+		return nil
+	}
+	if f.Signature.Results().Len() == 0 || len(c.Args) != len(f.Params) {
+		return nil
+	}
+	sub := NewOrigins(f)
+	sub.ParamSubst = map[*ssa.Parameter]*Term{}
+	for i, p := range f.Params {
+		sub.ParamSubst[p] = o.of(c.Args[i], depth+1)
+	}
+	sub.inlining = map[*ssa.Function]bool{f: true, o.Fn: true}
+	for k := range o.inlining {
+		sub.inlining[k] = true
+	}
+	nres := f.Signature.Results().Len()
+	alts := make([][]*Term, nres)
+	for _, b := range f.Blocks {
+		ret, ok := b.Instrs[len(b.Instrs)-1].(*ssa.Return)
+		if !ok || len(ret.Results) != nres {
+			continue
+		}
+		for i, r := range ret.Results {
+			t := sub.Of(r)
+			dup := false
+			for _, a := range alts[i] {
+				if a.String() == t.String() {
+					dup = true
+				}
+			}
+			if !dup {
+				alts[i] = append(alts[i], t)
+			}
+		}
+	}
+	res := make([]*Term, nres)
+	for i := range alts {
+		switch len(alts[i]) {
+		case 0:
+			return nil
+		case 1:
+			res[i] = alts[i][0]
+		default:
+			if len(alts[i]) > 8 {
+				return nil
+			}
+			res[i] = &Term{Op: "phi", Name: "phi", Args: alts[i]}
+		}
+	}
+	if nres == 1 {
+		return res[0]
+	}
+	return &Term{Op: "call", Name: "tuple:", Args: res}
 }
